@@ -129,16 +129,16 @@ def fn_parts(src, name):
     j = match_close(src, m.end() - 1)
     params = [norm(re.sub(r"//[^\n]*", "", p)) for p in split_top(src[m.end():j])]
     lead = params[:2]
-    if lead == ["t: &mut Transaction", "map: &CMap2<T>"]:
-        ren = False
-    elif lead == ["cmap: &CMap2<T>", "trans: &mut Transaction"]:
-        ren = True
-    else:
+    tn = [p.split(":")[0].strip() for p in lead if p.split(":", 1)[1].strip() == "&mut Transaction"]
+    mn = [p.split(":")[0].strip() for p in lead if p.split(":", 1)[1].strip() == "&CMap2<T>"]
+    if len(tn) != 1 or len(mn) != 1:
         raise Fail("%s: unexpected leading parameters %r" % (name, lead))
+    tname, mname = tn[0], mn[0]
     specs = []
     for p in params[2:]:
         ma = re.fullmatch(r"\[([\w, ]+)\]: \[DartIdType; (\d+)\]", p)
-        mb = re.fullmatch(r"(\w+): (EdgeIdType|DartIdType)", p)
+        mb = re.fullmatch(r"(\w+): (EdgeIdType|DartIdType|FaceIdType)", p)
+        me_ = re.fullmatch(r"(\w+): &\[DartIdType\]", p)
         mc = re.fullmatch(r"(\w+): \(DartIdType, DartIdType\)", p)
         md = re.fullmatch(r"(\w+): Option<T>", p)
         if ma:
@@ -152,15 +152,16 @@ def fn_parts(src, name):
             specs.append((mc.group(1), "pair"))
         elif md:
             specs.append((md.group(1), "optsc"))
+        elif me_:
+            specs.append((me_.group(1), "dlist"))
         else:
             raise Fail("%s: parameter outside the subset: %r" % (name, p))
     i = src.index("{", j)
     body = src[i + 1:match_close(src, i)]
-    if ren:
-        if re.search(r"\bmap\b(?!_or)", body) or re.search(r"\bt\b", re.sub(r"\|t\|[^,;)]*[,;)]", "", body)):
-            pass  # closures use |t| ...: handled by exact-text patterns
-        body = re.sub(r"\bcmap\b", "map", body)
-        body = re.sub(r"\btrans\b", "t", body)
+    if mname != "map":
+        body = re.sub(r"\b%s\b" % mname, "map", body)
+    if tname != "t":
+        body = re.sub(r"\b%s\b" % tname, "t", body)
     return specs, body
 
 
@@ -173,8 +174,11 @@ class Tr:
                 self.env[a] = (a, None)
             elif kind == "pair":
                 self.env[a] = (None, ("pair", a + "_0", a + "_1"))
+            elif kind == "dlist":
+                self.env[a] = (a, "dlist")
             else:
                 self.env[a] = (a, "optsc")
+        self.aux = []                                # auxiliary Fixpoints (loops), emitted before the definition
 
     def fresh(self, hint):
         self.n += 1
@@ -187,6 +191,7 @@ class Tr:
     def val(self, x, env):
         x = norm(x)
         x = re.sub(r"\s+as\s+(DartIdType|EdgeIdType|VertexIdType|FaceIdType)$", "", x)
+        x = re.sub(r"^\*(\w+)$", r"\1", x)                   # deref of a dart reference
         if x in ("NULL_DART_ID", "NULL_EDGE_ID", "NULL_VERTEX_ID"):
             return "0", None
         m = re.fullmatch(r"(\w+)::from\((\w+)\)", x)
@@ -233,7 +238,7 @@ class Tr:
         m = re.fullmatch(r"map\.unlink::<(\d)>\(t, (\w+)\)", c)
         if m and m.group(1) in UNLINK:
             return "%s %s" % (UNLINK[m.group(1)], self.val(m.group(2), env)[0]), True
-        m = re.fullmatch(r"map\.(sew|unsew)::<(\d)>\(t, (\w+)(?:, (\w+))?\)", c)
+        m = re.fullmatch(r"map\.(sew|unsew)::<(\d)>\(t, (\*?\w+)(?:, (\*?\w+))?\)", c)
         if m and (m.group(1), m.group(2)) in SEW:
             if (m.group(1) == "sew") != (m.group(4) is not None):
                 self.bad("sew arity", c)
@@ -370,6 +375,58 @@ class Tr:
             env2[m.group(1)] = self.val(m.group(6), env2)
             return ("%s <- %s ;;\n  %s <- %s ;;\n  match %s with\n  | Some %s =>\n  match %s with\n  | Some %s =>\n  %s\n  | None => Retry\n  end\n  | None => Retry\n  end"
                     % (o1, e1, o2, e2, o1, a, o2, b, self.stmts(rest, env2)))
+        # --- triangulation kernels
+        # collect the darts of a face:  let mut V: SmallVec<..> = SmallVec::new();  for d in map.orbit_transac(t, P, X) { V.push(d?); }
+        m = re.fullmatch(r"let mut (\w+): SmallVec<DartIdType, \d+> = SmallVec::new\(\)", s)
+        if m and rest:
+            m2 = re.fullmatch(r"for d in map\.orbit_transac\(t, OrbitPolicy::(\w+), (.+)\) \{ %s\.push\(d\?\); \}" % m.group(1), rest[0][0])
+            if m2 and m2.group(1) in ("FaceLinear", "Face", "Vertex", "Edge"):
+                v = self.fresh(m.group(1))
+                env2 = dict(env)
+                env2[m.group(1)] = (v, "dlist")
+                return "%s <- orbit2_tx n P%s %s ;;\n  %s" % (v, m2.group(1), self.val(m2.group(2), env)[0], self.stmts(rest[1:], env2))
+        m = re.fullmatch(r"let (\w+) = (\w+)\.len\(\)", s)
+        if m and env.get(m.group(2), (None, None))[1] == "dlist":
+            env = dict(env)
+            env[m.group(1)] = ("(length %s)" % env[m.group(2)][0], "nat")
+            return self.stmts(rest, env)
+        m = re.fullmatch(r"if let Err\(e\) = check_requirements\((\w+), (\w+)\.len\(\)\) \{ abort\(e\)\?; \}", s)
+        if m and env.get(m.group(1), (None, None))[1] == "nat" and env.get(m.group(2), (None, None))[1] == "dlist":
+            return ("match check_requirements %s (length %s) with\n  | Some e => Fail e\n  | None =>\n  %s\n  end"
+                    % (env[m.group(1)][0], env[m.group(2)][0], self.stmts(rest, env)))
+        m = re.fullmatch(r"let (\w+) = map\.read_vertex\(t, (\w+)\)\?\.unwrap\(\)", s)
+        if m:
+            o, v = self.fresh("ov"), self.fresh(m.group(1))
+            env2 = dict(env)
+            env2[m.group(1)] = (v, None)
+            return ("%s <- rdV %s ;;\n  match %s with\n  | None => Panic UnwrapNone\n  | Some %s =>\n  %s\n  end"
+                    % (o, self.val(m.group(2), env)[0], o, v, self.stmts(rest, env2)))
+        # the fan loop:  let mut d0 = X;  for sl in L.chunks_exact(2) { let [a, b] = sl else { unreachable!() }; BODY; d0 = *b; }
+        m = re.fullmatch(r"let mut (\w+) = (\w+)", s)
+        if m and rest:
+            m2 = re.match(r"for sl in (\w+)\.chunks_exact\(2\) \{", rest[0][0])
+            if m2 and env.get(m2.group(1), (None, None))[1] == "dlist":
+                body = rest[0][0][m2.end():-1].strip()
+                bs = split_stmts(body)
+                m3 = re.fullmatch(r"let \[(\w+), (\w+)\] = sl else \{ unreachable!\(\) \}", bs[0][0])
+                m4 = re.fullmatch(r"%s = \*(\w+)" % m.group(1), bs[-1][0])
+                if not (m3 and m4 and m4.group(1) == m3.group(2)):
+                    self.bad("loop over pairs", rest[0][0])
+                acc, a_, b_ = m.group(1), m3.group(1), m3.group(2)
+                lname = "gen_%s_loop" % self.name
+                envb = dict(env)
+                envb[acc], envb[a_], envb[b_] = (acc, None), (a_, None), (b_, None)
+                # the loop body ends with the recursive call on the rest of the list
+                inner = self.stmts(bs[1:-1] + [("__REC__", False)], envb)
+                inner = inner.replace("__REC__", "%s n ks %s r" % (lname, b_))
+                self.aux.append("Fixpoint %s (n : N) (ks : kinds) (%s : N) (pairs : list (N * N)) : prog N :=\n  match pairs with\n  | [] => Ret %s\n  | (%s, %s) :: r =>\n  %s\n  end."
+                                % (lname, acc, acc, a_, b_, inner))
+                v = self.fresh(acc)
+                env2 = dict(env)
+                env2[acc] = (v, None)
+                return "%s <- %s n ks %s (chunks2 %s) ;;\n  %s" % (v, lname, self.val(m.group(2), env)[0], env[m2.group(1)][0], self.stmts(rest[1:], env2))
+        if s == "__REC__":
+            return "__REC__"
         # is_some_and on the optional position
         m = re.fullmatch(r"if (\w+)\.is_some_and\(\|t\| \(t >= T::one\(\)\) \| \(t <= T::zero\(\)\)\) \{ abort\(([\w:]+)\)\?; \}", s)
         if m and env.get(m.group(1), (None, None))[1] == "optsc" and m.group(2) in ERR:
@@ -509,6 +566,7 @@ TARGETS = [
     ("cut_inner_edge", "/repo/honeycomb-kernels/src/remeshing/cut.rs", "gen_cut_inner_edge"),
     ("swap_edge", "/repo/honeycomb-kernels/src/remeshing/swap.rs", "gen_swap_edge"),
     ("insert_vertex_on_edge", "/repo/honeycomb-kernels/src/cell_insertion/vertices.rs", "gen_insert_vertex_on_edge"),
+    ("process_convex_cell", "/repo/honeycomb-kernels/src/triangulation/fan.rs", "gen_fan_convex_cell"),
 ]
 OUT = "/verif/coq/theories/Map2/GenKern.v"
 
@@ -524,9 +582,11 @@ def main():
         for a_, kind in specs:
             darts += [a_] if kind == "dart" else ([a_ + "_0", a_ + "_1"] if kind == "pair" else [])
         opts = "".join(" (%s : option Sc)" % a_ for a_, kind in specs if kind == "optsc")
+        opts += "".join(" (%s : list N)" % a_ for a_, kind in specs if kind == "dlist")
+        defs.extend(t.aux)
         defs.append("Definition %s (n : N) (ks : kinds) (%s : N)%s : prog unit :=\n  %s." % (gname, " ".join(darts), opts, text))
     text = ("(** GENERATED by tools/tr_kern.py from %s -- do not edit. *)\n"
-            "From Coq Require Import List NArith Bool.\nFrom HC Require Import Stm.Prog Map2.Ops2 Map2.Kern2.\nOpen Scope N_scope.\n\n"
+            "From Coq Require Import List NArith Bool.\nFrom HC Require Import Stm.Prog Map2.Ops2 Map2.Orbit2 Map2.Kern2.\nImport ListNotations.\nOpen Scope N_scope.\n\n"
             "Section GenKern.\nContext `{Sig}.\n\n%s\n\nEnd GenKern.\n") % (", ".join(sorted(set(p for _, p, _ in TARGETS))), "\n\n".join(defs))
     try:
         old = open(OUT).read()
